@@ -10,17 +10,24 @@ RULE = ("(ref, query, k) cases are executed on symdel(seqs2=), nearest_neighbor(
         "and compared with {(q,r,lev(query[q],ref[r])) <= k}; histories are sequences of look-ups on one live index object, "
         "each answer compared with the reference and with a fresh one-shot search, index state canonicalised after every "
         "transition; non-trivial = expected set non-empty")
-ASSUMPTIONS = ["LookupDB enumerates the 20-letter edit ball: k<=2 only for short strings (cost), k=3 only on U(AC,1)",
+ASSUMPTIONS = ["an index object may change its internal state on look-ups (e.g. memoisation); only the answers are judged, and the BFS expands every new canonical state (all instance attributes, contents included) up to the depth bound",
+               "LookupDB enumerates the 20-letter edit ball: k<=2 only for short strings (cost), k=3 only on U(AC,1)",
                "index state = (variant_dict / seq_dict contents, seqs, max_edits); other attributes do not exist on these classes (checked: vars())"]
-REQUIRED_CLASSES = {"all": ["q-equals-r-position-hit", "identical-sequence-d0", "duplicate-in-ref", "duplicate-in-query", "history-step"]}
+REQUIRED_CLASSES = {"all": ["q-equals-r-position-hit", "identical-sequence-d0", "duplicate-in-ref", "duplicate-in-query", "history-step", "same-object-both-sides", "history-changes-max_edits"]}
 MIN_OUTCOMES = 10
 
 ENG = ("symdel2", "nn2", "SymdelDB", "LookupDB")
+SAME = ("symdel2-same-object", "nn2-same-object")   # the very same list object passed as both collections
 
 
 def run_engine(acc, eng, ref, query, k):
     import pyrepseq
     from pyrepseq.nn import SymdelDB, LookupDB
+    if eng in SAME:
+        if tuple(ref) != tuple(query):
+            raise HarnessError("same-object engine needs ref == query")
+        x = list(ref)
+        return acc.call(pyrepseq.symdel if eng.startswith("symdel") else pyrepseq.nearest_neighbor, x, k, seqs2=x)
     if eng == "symdel2":
         return acc.call(pyrepseq.symdel, list(ref), k, seqs2=list(query))
     if eng == "nn2":
@@ -36,6 +43,11 @@ QUERIES = (("A",), ("AC", "A"), ("C", "C", ""), ("CA", "AA", "AC"), ("",), ("CC"
 REFS = (("A", "AC", "CA"), ("", "A", "A", "CC"), ("AC",), ("CA", "AC", "AA", "C", ""))
 
 
+# look-up operations on a live index: (query list, mode, max_edits of this look-up; 0 = the index's own, SymdelDB fixes it at build time)
+OPS = {"SymdelDB": [(qi, mode, 0) for qi in range(6) for mode in ("lev", "hamming")],
+       "LookupDB": [(qi, mode, kk) for qi in range(6) for mode in ("lev", "hamming") for kk in (1, 2)]}
+
+
 def spaces(tier):
     q = tier == "quick"
 
@@ -45,6 +57,8 @@ def spaces(tier):
                 for eng in ("symdel2", "nn2", "SymdelDB"):
                     yield ("uu", alpha, L, k, eng, "fwd")
                 yield ("uu", alpha, L, k, "symdel2", "rev")
+                yield ("uu", alpha, L, k, "symdel2-same-object", "fwd")
+                yield ("uu", alpha, L, k, "nn2-same-object", "fwd")
         # LookupDB: ball enumeration over 20 letters is exponential in k
         for alpha, L, k in ([("AC", 4, 1), ("ACD", 3, 1), ("AC", 2, 2), ("AC", 1, 3)] if q else
                             [("AC", 6, 1), ("ACD", 4, 1), ("AC", 3, 2), ("ACD", 2, 2), ("AC", 1, 3)]):
@@ -67,27 +81,26 @@ def spaces(tier):
                 yield ("rq", ref, query)
 
     def gen_hist():
-        ops = [(qi, mode) for qi in range(len(QUERIES)) for mode in ("lev", "hamming")]
         depth = 2 if q else 3
         for kind in ("SymdelDB", "LookupDB"):
             for ri in range(len(REFS)):
-                for k in (1, 2):
+                for k in (1, 2) if kind == "SymdelDB" else (0,):
                     for d in range(1, depth + 1):
-                        for h in itertools.product(ops, repeat=d):
+                        for h in itertools.product(OPS[kind], repeat=d):
                             yield ("hist", kind, ri, k, h)
 
     def gen_bfs():
         for kind in ("SymdelDB", "LookupDB"):
             for ri in range(len(REFS)):
-                for k in (1, 2):
+                for k in (1, 2) if kind == "SymdelDB" else (0,):
                     yield ("bfs", kind, ri, k, 4 if q else 6)
 
     return [
         Space("universe-x-universe", gen_uu, "ref = query = whole universe in one call (every q==r position coincidence occurs): U(AC,6)/U(ACD,4) quick, U(AC,8)/U(ACD,6) thorough, k in 1..3; LookupDB on smaller universes", per_case=True),
         Space("all-ref-query-lists", gen_rq, "ref in Lists(U(AC,2),3|4) x query in Lists(U(AC,2),2), k in 1..3 (LookupDB k<=2), four engines"),
         Space("all-ref-query-lists-long-query", gen_rq3, "thorough: ref in Lists(U(AC,2),2) x query in Lists(U(AC,2),3)"),
-        Space("lookup-histories-no-dedup", gen_hist, "every sequence of 1..2 (quick) / 1..3 (thorough) look-ups from 6 query lists x {levenshtein, hamming} on one live SymdelDB / LookupDB, 4 reference lists, k in 1..2; no state abstraction involved", shards=64),
-        Space("lookup-history-bfs", gen_bfs, "BFS over canonical index states, all 12 look-up operations from every reachable state until closure or depth 4 (quick) / 6 (thorough)", per_case=True),
+        Space("lookup-histories-no-dedup", gen_hist, "every sequence of 1..2 (quick) / 1..3 (thorough) look-ups from 6 query lists x {levenshtein, hamming} (x max_edits in 1..2 per look-up for LookupDB) on one live SymdelDB (k in 1..2) / LookupDB, 4 reference lists; no state abstraction involved", shards=64),
+        Space("lookup-history-bfs", gen_bfs, "BFS over canonical index states, all 12 (SymdelDB) / 24 (LookupDB) look-up operations from every reachable state until closure or depth 4 (quick) / 6 (thorough)", per_case=True),
     ]
 
 
@@ -130,7 +143,8 @@ def _compare(acc, case, eng, ref, query, k, res, expected, outcome=True):
 def canon_db(db):
     d = vars(db)
     table = d.get("variant_dict", d.get("seq_dict"))
-    extra = tuple(sorted(k for k in d if k not in ("variant_dict", "seq_dict", "seqs", "max_edits")))
+    # any further attribute (e.g. a memo cache added by a refactoring) is part of the state, contents included
+    extra = tuple(sorted((k, repr(sorted(d[k].items(), key=repr)) if isinstance(d[k], dict) else repr(d[k])) for k in d if k not in ("variant_dict", "seq_dict", "seqs", "max_edits")))
     return (tuple(sorted((k, tuple(v)) for k, v in table.items())), tuple(d["seqs"]), d.get("max_edits"), extra)
 
 
@@ -149,7 +163,9 @@ def _lookup(acc, kind, db, query, k, mode):
 def _step_check(acc, case, kind, db, ref, k, op, canon0):
     """one transition on a live index: answer == reference == fresh one-shot; state unchanged."""
     import pyrepseq
-    qi, mode = op
+    qi, mode, kop = op
+    if kop:
+        k = kop
     query = QUERIES[qi]
     acc.cls("history-step")
     res = _lookup(acc, kind, db, query, k, mode)
@@ -166,10 +182,8 @@ def _step_check(acc, case, kind, db, ref, k, op, canon0):
     if digest(oneshot) != digest(res):
         acc.fail("%s/history/%s/differs-from-one-shot-symdel" % (kind, mode), case, digest(oneshot), digest(res))
         return False
-    c1 = canon_db(db)
-    if c1 != canon0:
-        acc.fail("%s/history/index-mutated-by-lookup" % kind, case, "index unchanged", "index contents changed by a look-up")
-        return False
+    if canon_db(db) != canon0:
+        acc.cls("lookup-changed-index-state")     # not a violation by itself (a correct memo cache is fine): only answers are judged
     acc.ok((kind, mode, digest(res)), nontrivial=bool(expected))
     return True
 
@@ -194,28 +208,32 @@ def check_case(case, acc):
         for k in (1, 2, 3):
             expected = neighbors_within(list(ref), k, queries=list(query))
             _classes(acc, ref, query, expected)
-            for eng in ENG:
+            for eng in ENG + (SAME if tuple(ref) == tuple(query) else ()):
                 if eng == "LookupDB" and k == 3:
                     continue
+                if eng in SAME:
+                    acc.cls("same-object-both-sides")
                 _compare(acc, ("rq1", ref, query, k, eng), eng, ref, query, k, run_engine(acc, eng, ref, query, k), expected)
     elif kind == "hist":
         _, dbk, ri, k, h = case
         ref = REFS[ri]
-        db = _mk(dbk, ref, k)
+        db = _mk(dbk, ref, k or 1)
         acc.transitions += 1
         c0 = canon_db(db)
+        if len({o[2] for o in h}) > 1:
+            acc.cls("history-changes-max_edits")
         for op in h:
             if not _step_check(acc, case, dbk, db, ref, k, op, c0):
                 break
     elif kind == "bfs":
         _, dbk, ri, k, maxdepth = case
         ref = REFS[ri]
-        ops = [(qi, mode) for qi in range(len(QUERIES)) for mode in ("lev", "hamming")]
+        ops = OPS[dbk]
         # a state is the history that reaches it; build() replays it on a fresh real object
         def build(hist):
-            db = _mk(dbk, ref, k)
-            for qi, mode in hist:
-                _lookup(acc, dbk, db, QUERIES[qi], k, mode)
+            db = _mk(dbk, ref, k or 1)
+            for qi, mode, kop in hist:
+                _lookup(acc, dbk, db, QUERIES[qi], kop or k, mode)
             return db
         c0 = canon_db(build(()))
         seen = {c0}
@@ -242,7 +260,6 @@ def check_case(case, acc):
         acc.extra["bfs_transitions"] += ntrans
         if frontier:
             acc.caps.append("bfs depth bound %d reached with %d open states (%s ref %d k %d)" % (maxdepth, len(frontier), dbk, ri, k))
-        if len(seen) != 1:
-            acc.fail("%s/history/index-state-not-closed" % dbk, case, "1 canonical state (look-ups are read-only)", "%d states" % len(seen))
+        acc.extra["bfs_max_states_per_index"] = max(acc.extra["bfs_max_states_per_index"], len(seen))
     else:
         raise HarnessError("unknown case %r" % (case,))
